@@ -93,6 +93,10 @@ def install_mtscomp(it, fs_):
     def decompress(it_, a, k):
         src, ch, out = a[0], a[1], k["out"]
         it_.ctx.oblige("mtscomp.decompress.pre.exists", z3.And(ex_term(fs_, src), ex_term(fs_, ch)), "pre")
+        if out is None:
+            # mtscomp.decompress(out=None): the data are only handed back in memory, nothing is written
+            fs_.log.append(("decompress_in_memory", src.key, None))
+            return R()
         fs_.log.append(("decompress", src.key, out.key))
         if it_.ctx.branch(z3.Bool(fresh_name("decompress_fails"))):
             fs_.exists[out.key] = SV(z3.Bool(fresh_name("partial_out")))
@@ -287,8 +291,8 @@ def h_compress(H):
 @harness(PROPERTY, "decompress_file", functions=["spikeglx:Reader.decompress_file", "spikeglx:Reader.close", "spikeglx:Reader.is_open"], replay=lambda vals, oid: replay_decompress_elsewhere(vals, oid),
          clause="in-place decompression: compressed source (and its .ch) removed only after the binary is complete")
 def h_decompress(H):
-    for keep, elsewhere in ((True, False), (False, False), (False, True), (True, True)):
-        S = H.session(f"decompress.keep{keep}" + (".out_elsewhere" if elsewhere else ""))
+    for keep, elsewhere in ((True, False), (False, False), (False, True), (True, True), (False, None), (True, None)):
+        S = H.session(f"decompress.keep{keep}" + (".out_elsewhere" if elsewhere else "") + (".out_None" if elsewhere is None else ""))
 
         def body(it, keep=keep, elsewhere=elsewhere):
             fs_, paths = mk_fs(it, symbolic_exists=(".bin",))
@@ -297,8 +301,10 @@ def h_decompress(H):
             install_mtscomp(it, fs_)
             sr = mk_reader(paths, ".cbin")
             c0 = fs_.content[paths[".cbin"].key]
-            tag = f"keep{keep}" + (".out_elsewhere" if elsewhere else "")
+            tag = f"keep{keep}" + (".out_elsewhere" if elsewhere else "") + (".out_None" if elsewhere is None else "")
             kw = {"keep_original": keep}
+            if elsewhere is None:
+                kw["out"] = None          # the keyword spelled out with its "no value" (a wrapper forwarding its own default): the default location
             cb, bn, ch = paths[".cbin"], paths[".bin"], paths[".ch"]
             if elsewhere:
                 # documented option: the binary is asked for under another name in another folder, where a compressed copy of some recording (header included) may sit
@@ -329,7 +335,8 @@ def h_decompress(H):
                 else:
                     it.ctx.oblige(f"decompress.source_removed_after.{tag}", z3.And(z3.Not(ex_term(fs_, cb)), z3.Not(ex_term(fs_, ch)), z3.BoolVal(sr.file_bin == bn)), "post")
                     ops_ = [x[0] for x in fs_.log]
-                    it.ctx.oblige(f"decompress.order.{tag}", z3.BoolVal(ops_.index("decompress") < ops_.index("unlink")), "post")
+                    it.ctx.oblige(f"decompress.order.{tag}", z3.BoolVal("decompress" in ops_ and "unlink" in ops_ and ops_.index("decompress") < ops_.index("unlink")), "post",
+                                  "the source is removed after a decompression that wrote its replacement")
             else:
                 it.ctx.oblige(f"decompress.fail.source_untouched.{tag}", z3.And(ex_term(fs_, cb), fs_.content[cb.key] == c0, ex_term(fs_, ch), z3.BoolVal(sr.file_bin == cb)), "post")
         S.explore(body)
@@ -442,6 +449,25 @@ def replay_decompress_elsewhere(vals, oid):
         complete = os.path.exists(out) and open(out, "rb").read() == orig_a
         if raised or not after_ok or not src_gone or not complete:
             bad.append({"decompress_file(keep_original=False, out=<another folder>)": {"raised": raised, "files_of_the_other_recording_intact": after_ok, "source_and_its_header_removed": src_gone, "output_complete": complete}})
+        # the keyword spelled out with None (a wrapper forwarding its own default): the binary goes to the default location before the source is removed
+        c_dir = os.path.join(d, "c")
+        os.makedirs(c_dir)
+        fc = _mk_pair(c_dir, 1501, 385, rng, keep=("cbin",))
+        orig_c = fc["D"].tobytes()
+        sr = spikeglx.Reader(fc["cbin"], sort=False)
+        raised = None
+        try:
+            sr.decompress_file(keep_original=False, out=None)
+        except Exception as e:
+            raised = repr(e)[:120]
+        try:
+            sr.close()
+        except Exception:
+            pass
+        binp = fc["cbin"][:-4] + "bin"
+        recoverable = (os.path.exists(binp) and open(binp, "rb").read() == orig_c) or os.path.exists(fc["cbin"])
+        if not recoverable:
+            bad.append({"decompress_file(keep_original=False, out=None)": {"raised": raised, "files_left": sorted(os.listdir(c_dir)), "recording_recoverable": False}})
     finally:
         shutil.rmtree(d, ignore_errors=True)
     return {"failed": bool(bad), "cases": bad}
